@@ -405,4 +405,61 @@ theorem reshapeView_nat {α : Type} (a : Arr α) (fill : α) (t : Shape) (hne : 
     subst hi
     exact indices_inShape ha _
 
+/-! ### flip -/
+theorem flipGo_length (axes : Option (List Int)) (k0 : Nat) (src d : List Nat) (h : d.length = src.length) :
+    (flipGo axes k0 src d).length = src.length := by
+  induction src generalizing k0 d with
+  | nil => cases d <;> simp [flipGo]
+  | cons n ns ih =>
+    cases d with
+    | nil => simp at h
+    | cons x xs => simp [flipGo, ih (k0+1) xs (by simpa using h)]
+
+theorem flipGo_get (axes : Option (List Int)) (k0 : Nat) (src d : List Nat) (j n x : Nat)
+    (hn : src[j]? = some n) (hx : d[j]? = some x) :
+    (flipGo axes k0 src d)[j]? = some (if flipInAxis axes (k0 + j) then n - 1 - x else x) := by
+  induction src generalizing k0 d j with
+  | nil => simp at hn
+  | cons m ns ih =>
+    cases d with
+    | nil => simp at hx
+    | cons y ys =>
+      cases j with
+      | zero => simp at hn hx; subst hn hx; simp [flipGo]
+      | succ j =>
+        simp only [List.getElem?_cons_succ] at hn hx
+        simp only [flipGo, List.getElem?_cons_succ]
+        rw [ih (k0+1) ys j hn hx]
+        have : k0 + 1 + j = k0 + (j + 1) := by omega
+        rw [this]
+
+theorem flipGo_inShape (axes : Option (List Int)) (k0 : Nat) (src d : List Nat) (h : InShape d src) :
+    InShape (flipGo axes k0 src d) src := by
+  induction src generalizing k0 d with
+  | nil => cases d <;> simp_all [InShape, flipGo]
+  | cons n ns ih =>
+    cases d with
+    | nil => simp [InShape] at h
+    | cons x xs =>
+      simp only [InShape] at h
+      simp only [flipGo, InShape]
+      refine ⟨?_, ih (k0+1) xs h.2⟩
+      split <;> omega
+
+theorem flipGo_flipGo (axes : Option (List Int)) (k0 : Nat) (src d : List Nat) (h : InShape d src) :
+    flipGo axes k0 src (flipGo axes k0 src d) = d := by
+  induction src generalizing k0 d with
+  | nil => cases d <;> simp_all [InShape, flipGo]
+  | cons n ns ih =>
+    cases d with
+    | nil => simp [InShape] at h
+    | cons x xs =>
+      simp only [InShape] at h
+      simp only [flipGo, ih (k0+1) xs h.2]
+      congr 1
+      split <;> omega
+
+theorem flipInAxis_some (ax : List Int) (k : Nat) : flipInAxis (some ax) k = true ↔ (k : Int) ∈ ax := by
+  simp [flipInAxis]
+
 end NmVerif
